@@ -143,6 +143,7 @@ def tlc(module, cfg, wd, env=None, workers=None, simulate=None, depth=None,
     elif not res.completed and simulate is None:
         bad = "TLC did not complete"
     if bad:
+        m_over = "Overflow when computing" in p.stdout
         keep = [l for l in res.lines if not l.startswith(('"V ', '"CASE ', "Linting", "Parsing file",
                                                           "Semantic processing"))]
         heads = []
@@ -150,7 +151,10 @@ def tlc(module, cfg, wd, env=None, workers=None, simulate=None, depth=None,
             if l.startswith("Error:") or "Exception" in l or "Overflow" in l:
                 heads += keep[i:i + 6]
         tail = "\n".join(heads[:40] + ["..."] + keep[-12:])[-4000:]
-        raise MachineryError("%s on %s/%s:\n%s" % (bad, module, cfg, tail))
+        err = MachineryError("%s on %s/%s:\n%s" % (bad, module, cfg, tail))
+        err.result = res
+        err.overflow = m_over
+        raise err
     return res
 
 
@@ -174,12 +178,34 @@ def validate_traces(module, cfg, records, wd, env=None, chunk=200000, timeout=36
         write_ndjson(path, part)
         e = dict(env or {})
         e["TRACES"] = path
-        r = tlc(module, cfg, wd, env=e, timeout=timeout, workers=workers, heap=heap)
+        skipped = {}
+        for attempt in range(12):
+            try:
+                r = tlc(module, cfg, wd, env=e, timeout=timeout, workers=workers, heap=heap)
+                break
+            except MachineryError as err:
+                # a record whose exact arithmetic leaves TLC's 32-bit integers cannot be judged: drop
+                # it (verdict "skip:overflow", never a verdict on the code) and validate the rest
+                res = getattr(err, "result", None)
+                tids = re.findall(r"/\\ tid = (\d+)", res.out) if (res and getattr(err, "overflow", False)) else []
+                tids = [int(t) for t in tids if int(t) > 0]
+                if not tids:
+                    raise
+                # map the tid of this (possibly already reduced) file back to the original index
+                live = [i for i in range(len(part)) if i not in skipped]
+                bad_i = live[tids[-1] - 1]
+                skipped[bad_i] = "skip:overflow"
+                write_ndjson(path, [part[i] for i in range(len(part)) if i not in skipped])
+        else:
+            raise MachineryError("%s: too many records overflow TLC's integers" % module)
         states += r.distinct
         trans += r.generated
+        live = [i for i in range(len(part)) if i not in skipped]
         for body in r.printed("V"):
             tid, _, v = body.partition(" ")
-            verdicts[base + int(tid) - 1] = v
+            verdicts[base + live[int(tid) - 1]] = v
+        for i, v in skipped.items():
+            verdicts[base + i] = v
         os.unlink(path)
     missing = [i for i, v in enumerate(verdicts) if v is None]
     if missing:
